@@ -29,6 +29,7 @@ Key(o) ==
     [] o.op \in {"offered", "stopped"} -> <<o.op, o.lst, o.svc, o.src>>
     [] o.op \in {"new", "gone"} -> <<o.op, o.a, o.key>>
     [] o.op = "reboot" -> <<o.op, o.comp, o.a>>
+    [] o.op = "ntx" -> <<o.op, o.dst, o.sid, o.ev, o.val>>
     [] o.op = "cl_applied" -> <<o.op, o.comp>>
     [] o.op = "subscribed" -> <<o.op, o.inst, SubK(o.sub), o.src, o.acc>>
     [] o.op = "unsubscribed" -> <<o.op, o.inst, SubK(o.sub), o.src>>
@@ -64,10 +65,10 @@ TRun ==
          s0 == [s EXCEPT !.ready = Tail(@), !.todo = @ - 1, !.outs = <<>>]
      IN IF c.kind = "slot"
         THEN /\ More /\ Tr[ln].k = "in" /\ Tr[ln].t = now
-             /\ \E ch \in Cfg.randVals : s' = [Effect([s0 EXCEPT !.ch = ch], [kind |-> "input", e |-> Tr[ln]]) EXCEPT !.ch = 0]
+             /\ \E ch \in Cfg.randVals, pk \in Cfg.epOrders : s' = [Effect([s0 EXCEPT !.ch = ch, !.pick = pk], [kind |-> "input", e |-> Tr[ln]]) EXCEPT !.ch = 0, !.pick = <<>>]
              /\ MatchFrom(Tail(s'.outs), ln + 1)
              /\ ln' = ln + Len(s'.outs)
-        ELSE /\ \E ch \in Cfg.randVals : s' = [Effect([s0 EXCEPT !.ch = ch], c) EXCEPT !.ch = 0]
+        ELSE /\ \E ch \in Cfg.randVals, pk \in Cfg.epOrders : s' = [Effect([s0 EXCEPT !.ch = ch, !.pick = pk], c) EXCEPT !.ch = 0, !.pick = <<>>]
              /\ MatchFrom(s'.outs, ln)
              /\ ln' = ln + Len(s'.outs)
   /\ UNCHANGED <<tid, now>>
